@@ -18,6 +18,19 @@ Theorem C19_safe_funcs_harmless : sb_safe_funcs_harmless sb_cur_facts = true.
 Proof. exact (eq_refl true <: sb_safe_funcs_harmless sb_cur_facts = true). Qed.
 Print Assumptions C19_safe_funcs_harmless.
 
+(* source-derived cross-check of that classification: the C++ body of at least 80 of the functions registered
+   side-effect-free is located, and none of the located bodies calls a mutator (Set/Add/Remove/Clear/Freeze/SetField/
+   ModifyAttribute/Register/...) on an object it did not create or touches files, processes or registries; the same
+   scan flags every container/object mutator the model knows *)
+Theorem C19_safe_bodies_clean :
+  sb_safe_bodies_clean sb_cur_facts sb_cur_body_scan 80 = true /\
+  sb_scan_sees_mutators sb_cur_body_scan sb_container_mutators = true.
+Proof.
+  exact (conj (eq_refl true <: sb_safe_bodies_clean sb_cur_facts sb_cur_body_scan 80 = true)
+              (eq_refl true <: sb_scan_sees_mutators sb_cur_body_scan sb_container_mutators = true)).
+Qed.
+Print Assumptions C19_safe_bodies_clean.
+
 (* sort/map/reduce/filter/any/all test `Sandboxed && !IsSideEffectFree()` in front of the first Invoke *)
 Theorem C19_callbacks_guarded : sb_callbacks_guarded sb_cur_facts = true.
 Proof. exact (eq_refl true <: sb_callbacks_guarded sb_cur_facts = true). Qed.
@@ -140,6 +153,16 @@ Proof.
               (@eq_refl _ [SbRdGlobal sb_n_TicketSalt] <: sbs_reads (snd (sb_eval sb_cur_facts 3 sb_filter_frame (SbVariable sb_n_TicketSalt) (sb_st0 [(sb_n_TicketSalt, SbVOpaque)]))) = [SbRdGlobal sb_n_TicketSalt]))).
 Qed.
 Print Assumptions C19_ticketsalt_refuted.
+
+(* F-C19-c (known): a console handler that serialises the result with all fields (Serialize(result, 0)) hands back
+   the password of an ApiUser that the sandboxed expression merely returned; one that leaves out no_user_view fields
+   (repo_patches/C19-console-serialize-hidden.diff) hands back no hidden value *)
+Theorem C19_console_refuted :
+  In (SbRdField sb_t_ApiUser sb_n_password)
+     (sb_console_result sb_cur_facts true (SbVObj sb_t_ApiUser (SbShared 1))) /\
+  (forall F v, sb_console_result F false v = []).
+Proof. exact (conj sb_console_refuted sb_console_filtered). Qed.
+Print Assumptions C19_console_refuted.
 
 (* the oracle run over implementation traces accepts every observation consistent with a model run *)
 Theorem C19_oracle_accepts_model : forall fuel fr e s o,
